@@ -31,6 +31,11 @@ def setup() -> int:
 
 
 def main() -> int:
+    import logging
+    import threading
+
+    logging.disable(logging.CRITICAL)
+    threading.excepthook = lambda args: None
     ap = argparse.ArgumentParser()
     ap.add_argument('pid', nargs='?')
     ap.add_argument('--tier', default=os.environ.get('VERIF_TIER', 'quick'), choices=['quick', 'thorough'])
